@@ -32,8 +32,8 @@ def cases(ctx):
         if key not in seen:
             seen.add(key)
             out.append(dict(zip(("role", "phase", "cut", "style"), key)))
-    if len(out) != 54:
-        raise MachineryError(f"{len(out)} stall scenarios exported, expected 54")
+    if len(out) != 55:
+        raise MachineryError(f"{len(out)} stall scenarios exported, expected 55")
     return out
 
 
@@ -94,4 +94,4 @@ def run(ctx: Ctx) -> int:
     ctx.sample(obs[0])
     ctx.assume("timeouts ACSE 0.6 s, DIMSE 0.6 s, network 0.8 s, connection 1 s; bound = their sum + 1.5 s", "loopback TCP, TCP_NODELAY; dribbled pieces 0.35 s apart",
                "one incomplete PDU per scenario (A-ASSOCIATE-RQ/AC, P-DATA-TF command / data set, A-RELEASE-RP)")
-    return ctx.finish(rule="all 54 (role, phase, cut, style) of Stall.tla: 8 role/phase pairs x {boundary, header, body} x {silence, dribble}, Sta13 x {silence, flood} and the TLS handshake, both roles")
+    return ctx.finish(rule="all 55 (role, phase, cut, style) of Stall.tla: 8 role/phase pairs x {boundary, header, body} x {silence, dribble}, Sta13 x {silence, flood}, the TLS handshake (both roles) and the release collision with a peer that then stays silent")
